@@ -121,8 +121,8 @@ def finite_difference(blk: Module, fromsig: Union[Signal, Iterable[Signal]] = No
                 else:
                     df_an[Iout] = df_an[Iout] + 1j * np.ones(shape)
 
-        # Set the output sensitivity
-        Sout.sensitivity = df_an[Iout]
+        # Set the output sensitivity (as a copy, because resetting a slice of this signal clears its entries in-place)
+        Sout.sensitivity = df_an[Iout].copy() if hasattr(df_an[Iout], "copy") else df_an[Iout]
 
         # Perform the analytical sensitivity calculation
         blk.sensitivity()
